@@ -1,4 +1,4 @@
-import AasVerif.Lemmas.JsonSchemaInherit
+import AasVerif.Lemmas.JsonSchemaLookup
 /-!
 # C12 — JSON Schema enforces every inferred constraint
 
@@ -205,6 +205,73 @@ theorem inheritable_property_enforced (defs : Defs) {c : Cls} {k : Text} {s : Sc
     {kvs : List (Text × Json)} {v : Json} (hl : lookup p.name kvs = some v) (hbad : ¬ Sat defs p.ty v) :
     ¬ Valid defs s (.obj kvs) :=
   fun hv => hbad (inheritable_own_property defs h hnd hmem hown hnm hd hv v hl)
+
+/-! ## End to end: the generated `definitions` object
+
+The look-up hypotheses are discharged for `defs = generate mm` (`Lemmas/JsonSchemaLookup`: keys are
+unique, the final sort is a permutation): "rejected" now reads *the document does not validate
+against `{"$ref": "#/definitions/<Class>"}` in the generated schema*. -/
+
+/-- a document of a concrete leaf class whose member breaks the annotation of an OWN property (shape or
+inferred constraint) does not validate against the generated schema -/
+theorem generated_schema_enforces_own (mm : MM) (defs : Defs) (h : generate mm = .ok defs) {c : Cls}
+    (hc : OurType.cls c ∈ mm.types) (hleaf : c.cdesc = []) (hconc : c.abstract = false)
+    (hnd : (c.props.map (·.name)).Nodup) {p : Prp} (hmem : p ∈ c.props) (hown : p.own = true)
+    (hnm : p.name ≠ modelTypeKey) {sp : Schema} (hd : defineType p.ty = .ok sp)
+    {kvs : List (Text × Json)} {v : Json} (hl : lookup p.name kvs = some v) (hbad : ¬ Sat defs p.ty v) :
+    ¬ Valid defs (refTo c.mt) (.obj kvs) := by
+  obtain ⟨s, hs, hlk⟩ := generate_leaf_lookup mm defs h hc hleaf hconc
+  rw [valid_ref_iff, hlk]
+  rintro ⟨s', hs', hv⟩
+  cases hs'
+  exact own_property_enforced defs hs hleaf hnd hmem hown hnm hd hl hbad hv
+
+/-- …or the annotation of a property declared in a PARENT class (abstract, or concrete with
+descendants): the constraint inferred from an ancestor is enforced on the descendant's documents -/
+theorem generated_schema_enforces_parent (mm : MM) (defs : Defs) (h : generate mm = .ok defs)
+    {c par : Cls} (hc : OurType.cls c ∈ mm.types) (hpar : OurType.cls par ∈ mm.types)
+    (hleaf : c.cdesc = []) (hconc : c.abstract = false) (hdesc : par.cdesc ≠ [])
+    {i : Inh} (hi : i ∈ c.inh)
+    (hname : i.refName = (if par.abstract then par.mt else sfx par.mt "_abstract"))
+    (hnd : (par.props.map (·.name)).Nodup) {p : Prp} (hmem : p ∈ par.props) (hown : p.own = true)
+    (hnm : p.name ≠ modelTypeKey) {spp : Schema} (hd : defineType p.ty = .ok spp)
+    {kvs : List (Text × Json)} {v : Json} (hl : lookup p.name kvs = some v) (hbad : ¬ Sat defs p.ty v) :
+    ¬ Valid defs (refTo c.mt) (.obj kvs) := by
+  obtain ⟨s, hs, hlk⟩ := generate_leaf_lookup mm defs h hc hleaf hconc
+  obtain ⟨kp, sp, hsp, hkp, hlkp⟩ := generate_inheritable_lookup mm defs h hpar hdesc
+  rw [valid_ref_iff, hlk]
+  rintro ⟨s', hs', hv⟩
+  cases hs'
+  refine parent_property_enforced defs hs hleaf hi hsp (hname.trans hkp.symm) ?_ hnd hmem hown hnm hd hl hbad hv
+  intro s'' hs''
+  rw [hlkp] at hs''
+  cases hs''
+  rfl
+
+/-- a wrong `modelType` does not validate against the generated schema -/
+theorem generated_schema_pins_modelType (mm : MM) (defs : Defs) (h : generate mm = .ok defs) {c : Cls}
+    (hc : OurType.cls c ∈ mm.types) (hleaf : c.cdesc = []) (hconc : c.abstract = false)
+    (hw : c.withModelType = true) {kvs : List (Text × Json)} {v : Json}
+    (hl : lookup modelTypeKey kvs = some v) (hbad : v ≠ .str c.mt) :
+    ¬ Valid defs (refTo c.mt) (.obj kvs) := by
+  obtain ⟨s, hs, hlk⟩ := generate_leaf_lookup mm defs h hc hleaf hconc
+  rw [valid_ref_iff, hlk]
+  rintro ⟨s', hs', hv⟩
+  cases hs'
+  exact modelType_wrong_rejected defs hs hleaf hw hl hbad hv
+
+/-- a missing required (own) member does not validate against the generated schema -/
+theorem generated_schema_requires (mm : MM) (defs : Defs) (h : generate mm = .ok defs) {c : Cls}
+    (hc : OurType.cls c ∈ mm.types) (hleaf : c.cdesc = []) (hconc : c.abstract = false)
+    (hnd : (c.props.map (·.name)).Nodup) {p : Prp} (hmem : p ∈ c.props) (hown : p.own = true)
+    (hreq : p.optional = false) {sp : Schema} (hd : defineType p.ty = .ok sp)
+    {kvs : List (Text × Json)} (hmiss : hasKey p.name kvs = false) :
+    ¬ Valid defs (refTo c.mt) (.obj kvs) := by
+  obtain ⟨s, hs, hlk⟩ := generate_leaf_lookup mm defs h hc hleaf hconc
+  rw [valid_ref_iff, hlk]
+  rintro ⟨s', hs', hv⟩
+  cases hs'
+  exact required_missing_rejected defs hs hleaf hnd hmem hown hreq hd hmiss hv
 
 /-! ### Non-vacuity -/
 
